@@ -193,7 +193,10 @@ def run(model, tier):
         'waves provided the ODE integration is exact -- dsdr_cP / dsdp_cR are the partial derivatives of sie (ideal gas and JWL), '
         'with d rho/dp, du/dp declared to be the coded right-hand sides the three similarity-form Euler equations hold for the '
         'placement xi = u + w a with a = sound_speed, and every fan placement of the driver uses the wave sign given to the '
-        'integrator. Its star state (bisection on spliced curves), integration and interpolation errors are not decided.')
+        'integrator. Its star state (bisection on spliced curves), integration and interpolation errors are not decided. '
+        'Delegation (sa/rules/c04_delegation.py): the inner problem object of IGEOS_Solver / GenEOS_Solver holds, attribute by attribute, the '
+        "solver's own parameter of the same name and the time of the call, and each returned field interpolates the driver array of the quantity "
+        'its standard name says: the solution returned belongs to the initial data the user gave.')
     res.rule_text = 'instance = one local condition (equation / jump condition / gluing identity)'
     res.trusted_base = ['CPython ast', 'sympy expand / factor_list', 'value-graph builder',
                         'equivalence weak solution <=> integral conservation (divergence theorem)']
@@ -201,6 +204,8 @@ def run(model, tier):
     reuse(model, res)
     from . import c04_geneos
     c04_geneos.fans(model, res)
+    from . import c04_delegation
+    c04_delegation.wrappers(model, res)
     if res.obligations < 40:
         raise AnalysisError('only %d local conditions analysed (confirmed: 60)' % res.obligations)
     return res
